@@ -2,6 +2,7 @@
    Statements only; proofs in Proofs/PegEscape.v (on the grammar regenerated from akn.peg). *)
 Require Import BB.Base.Str BB.Base.Dict BB.Model.PegSyntax BB.Model.Peg BB.Model.Types BB.Gen.Grammar.
 Require Import BB.Proofs.Totality BB.Proofs.PegEscape BB.Proofs.EscapedLine BB.Proofs.EscapedHeading BB.Proofs.EscapedNum.
+Require Import BB.Base.Xml BB.Model.Eid BB.Model.EidSpec BB.Model.PreParse BB.Model.XmlGen BB.Model.Convert BB.Gen.TablesParser BB.Gen.TablesLibs BB.Proofs.PlainLineConvert BB.Proofs.HierElement BB.Proofs.HierElementConvert.
 
 (* grammar level, for every non-empty string of scalar values without a newline, every position
    and any sufficient fuel: inline+ on the character-by-character escaped string consumes exactly
@@ -74,3 +75,26 @@ Example C13_example :
 Proof.
   split; [|discriminate]. repeat constructor; try (unfold scalar; lia); try discriminate.
 Qed.
+
+(* Through the WHOLE pipeline model: in a hierarchical element - any of the 34 keywords, any num - a heading and a content line written
+   with every character behind a backslash come out as exactly those characters, whatever they spell (keywords, markers, braces,
+   dashes, backslashes), for every string of scalar values without tab / line break that does not end in a blank
+   (Proofs/HierElementConvert.v; the trailing blank is finding F9). *)
+Theorem C13_escaped_hier_element_converts : forall uri prefix kw n h t k root_meta att_meta,
+  assoc_str uri meta_templates = Some (root_meta, att_meta) ->
+  In kw hier_keywords ->
+  num_ok n -> Forall (fun c => c <> TAB) n -> clean_num n <> [] -> valid_text n = true ->
+  escapable h -> escapable t -> (1 <= k)%nat ->
+  let tag := hier_name kw in
+  let cand := candidate prefix tag (clean_num n) in
+  convert uri (of_string "hier_element") prefix (kw ++ 32 :: n ++ 32 :: 45 :: 32 :: esc h ++ NL :: repeat SP k ++ esc t ++ [NL])
+  = OkR (hier_x tag [(EID, cand)] [(EID, cand ++ DUSCORE ++ P1)] n h t).
+Proof. exact escaped_hier_element_converts. Qed.
+Print Assumptions C13_escaped_hier_element_converts.
+
+Example C13_escaped_hier_element_example :
+  convert (of_string "/akn/za/act/2009/1") (of_string "hier_element") []
+          (of_string "PART 2 - " ++ esc (of_string "**{{ SEC - \\ }}") ++ NL :: of_string "  " ++ esc (of_string "PART 1 - //x// {{^") ++ [NL])
+  = OkR (hier_x (of_string "part") [(EID, of_string "part_2")] [(EID, of_string "part_2__p_1")]
+                (of_string "2") (of_string "**{{ SEC - \\ }}") (of_string "PART 1 - //x// {{^")).
+Proof. vm_compute. reflexivity. Qed.
